@@ -96,6 +96,8 @@ def resolver_query(qid, params, ctx):
         solver.add(*base)
         ex = Exec(img, solver)
         xg_conds = []
+        sites = {}
+        entry = img.symbols[fn + "_dispatch_init"]
 
         def cpuid_model(st, leaf, sub):
             if leaf == 1:
@@ -111,12 +113,14 @@ def resolver_query(qid, params, ctx):
                 d = cfg.other.setdefault(key, {r: z3.BitVec("cpuid%x_%s_%s" % (leaf, sub, r), 32) for r in ("eax", "ebx", "ecx", "edx")})
             if leaf == 7 and sub is None:
                 raise Unsupported("cpuid leaf 7 with symbolic subleaf")
+            sites[st.pc - entry] = ("cpuid", leaf)
             return d["eax"], d["ebx"], d["ecx"], d["edx"]
 
         def xgetbv_model(st, idx_):
             if idx_ != 0:
                 raise Unsupported("xgetbv index %d" % idx_)
             xg_conds.append(list(st.path))
+            sites[st.pc - entry] = ("xgetbv", 0)
             return cfg.xcr0, cfg.xcr0_hi
         ex.cpuid_model = cpuid_model
         ex.xgetbv_model = xgetbv_model
@@ -136,6 +140,19 @@ def resolver_query(qid, params, ctx):
         stats = {"paths": len(finals), "variables": ex.n_insns, "clauses": 0}
         selections = {}
         problems = []
+
+        def native_replay(m, expect):
+            """run the real resolver under gdb with CPUID/XGETBV results forced to the model"""
+            from harness.C16 import gdb_replay
+            ev = lambda v: m.eval(v, model_completion=True).as_long()
+            vals = {1: tuple(ev(cfg.l1[r]) for r in ("eax", "ebx", "ecx", "edx")), 7: tuple(ev(cfg.l7[r]) for r in ("eax", "ebx", "ecx", "edx")),
+                    0: tuple(ev(cfg.l0[r]) for r in ("eax", "ebx", "ecx", "edx")), 0x80000001: tuple(ev(cfg.ext[r]) for r in ("eax", "ebx", "ecx", "edx")),
+                    "xcr0": (ev(cfg.xcr0), ev(cfg.xcr0_hi))}
+            try:
+                got, log = gdb_replay.replay(img, fn, [(off, k, leaf) for off, (k, leaf) in sorted(sites.items())], vals, ctx["scratch"])
+            except Exception as e:
+                return None, "gdb replay failed: %r" % e
+            return (True if got == expect else (None if got is None else False)), "gdb: real resolver selected %s (expected %s)\n%s" % (got, expect, log[-600:])
 
         def model_cfg(m):
             ev = lambda v: m.eval(v, model_completion=True).as_long()
@@ -190,9 +207,10 @@ def resolver_query(qid, params, ctx):
                         why = [d for d in details if d.endswith("needs " + ft)][:2]
                         mc = model_cfg(m)
                         key = "dispatch:%s->%s:missing-%s" % (fn, name, ft)
-                        return {"status": VIOLATED, "finding_key": key,
+                        rep, rlog = native_replay(m, name)
+                        return {"status": VIOLATED, "finding_key": key, "replay_log": rlog,
                                 "detail": "resolver %s selects %s on a consistent configuration that does not report %s as available (%s); config %s" % (fn, name, ft, "; ".join(why), mc),
-                                "cex": {"resolver": fn, "selected": name, "missing": ft, "config": mc, "why": why}, "replay_ok": None, "stats": stats,
+                                "cex": {"resolver": fn, "selected": name, "missing": ft, "config": mc, "why": why}, "replay_ok": rep, "stats": stats,
                                 "selections": selections}
         # xgetbv only with OSXSAVE
         for pc in xg_conds:
@@ -207,3 +225,78 @@ def resolver_query(qid, params, ctx):
     except Unsupported as e:
         return {"status": ERROR, "detail": "outside encodable class: %s" % e}
     return {"status": HOLDS, "stats": stats, "solver_time_s": time.time() - t0, "witness_ok": len(selections) > 0, "selections": selections}
+
+
+def _explore(ctx, filekey, fn, cfg, base):
+    """all feasible (path condition, stored pointer term) pairs of one resolver under configuration symbols `cfg`"""
+    img = loader.build_image(ctx["repo"], [MB_FILES[filekey]], ctx["scratch"], with_stubs=True)
+    solver = z3.SolverFor("QF_BV")
+    solver.add(*base)
+    ex = Exec(img, solver)
+
+    def cpuid_model(st, leaf, sub):
+        d = {1: cfg.l1, 7: cfg.l7, 0: cfg.l0, 0x80000001: cfg.ext}.get(leaf)
+        if d is None:
+            d = cfg.other.setdefault((leaf, sub), {r: z3.BitVec("cpuid%x_%s_%s" % (leaf, sub, r), 32) for r in ("eax", "ebx", "ecx", "edx")})
+        return d["eax"], d["ebx"], d["ecx"], d["edx"]
+    ex.cpuid_model = cpuid_model
+    ex.xgetbv_model = lambda st, i: (cfg.xcr0, cfg.xcr0_hi)
+    s = Setup(img, fn + "_dispatch_init")
+    s.args = []
+    disp = img.symbols[fn + "_dispatched"]
+    s.region("dispatched_cell", 8, r=True, w=True, init=[img.data[disp + i] for i in range(8)])
+    s.regions[-1]["base"] = disp
+    out = []
+    for st, res in ex.run(s.initial_state()):
+        if isinstance(res, Violation):
+            raise Unsupported("resolver %s: %s" % (fn, res))
+        out.append((list(st.path), bv.join_bytes([st.mem.b[disp + i] for i in range(8)])))
+    names = {a: n for n, a in img.symbols.items() if not n.endswith("_dispatched") and not n.endswith("_mbinit") and "dispatch_init" not in n and not n.startswith("_")}
+    return out, names, ex.n_insns
+
+
+def agreement_query(qid, params, ctx):
+    """Entry points that exchange data in an implementation-specific format must resolve to the same family on EVERY
+    configuration.  params: group = [[filekey, fn], ...], family_regex: names matching it form family 1, others family 0."""
+    import re as _re
+    t0 = time.time()
+    try:
+        cfg = Cfg()
+        base = [a for _, a in cfg.consistent()]
+        rx = _re.compile(params["family_regex"])
+        explored = []
+        stats = {"paths": 0, "variables": 0, "clauses": 0}
+        for fk, fn in params["group"]:
+            paths, names, ni = _explore(ctx, fk, fn, cfg, base)
+            stats["paths"] += len(paths)
+            stats["variables"] += ni
+            fam = {a: (1 if rx.search(n) else 0) for a, n in names.items()}
+            explored.append((fn, paths, names, fam))
+
+        def in_family(ptr, fam, f):
+            addrs = [a for a, v in fam.items() if v == f]
+            if bv.is_c(ptr):
+                return z3.BoolVal(fam.get(ptr) == f)
+            return z3.Or(*[ptr == a for a in addrs]) if addrs else z3.BoolVal(False)
+        for i in range(len(explored)):
+            for j in range(i + 1, len(explored)):
+                fa, pa, na, fama = explored[i]
+                fb, pb, nb, famb = explored[j]
+                for (c1, p1) in pa:
+                    for (c2, p2) in pb:
+                        for f in (0, 1):
+                            stats["clauses"] += 1
+                            r, m = smt_check(base + c1 + c2 + [in_family(p1, fama, f), in_family(p2, famb, 1 - f)])
+                            if r == z3.unknown:
+                                return {"status": UNDECIDED, "detail": "z3 unknown"}
+                            if r == z3.sat:
+                                ev = lambda v: m.eval(v, model_completion=True).as_long()
+                                s1 = na.get(ev(p1) if not bv.is_c(p1) else p1)
+                                s2 = nb.get(ev(p2) if not bv.is_c(p2) else p2)
+                                mc = {"cpuid1_ecx": hex(ev(cfg.l1["ecx"])), "cpuid7_ebx": hex(ev(cfg.l7["ebx"])), "cpuid7_ecx": hex(ev(cfg.l7["ecx"])), "xcr0": hex(ev(cfg.xcr0))}
+                                return {"status": VIOLATED, "finding_key": "dispatch-agreement:%s/%s" % (fa, fb),
+                                        "detail": "on configuration %s %s resolves to %s but %s resolves to %s: the two exchange data in different formats (%s)" % (mc, fa, s1, fb, s2, params["family_regex"]),
+                                        "cex": {"config": mc, fa: s1, fb: s2}, "replay_ok": None, "stats": stats}
+    except Unsupported as e:
+        return {"status": ERROR, "detail": "outside encodable class: %s" % e}
+    return {"status": HOLDS, "stats": stats, "solver_time_s": time.time() - t0, "witness_ok": stats["paths"] > 0}
